@@ -8,7 +8,9 @@ from props.c01 import additive_utility
 
 RULE = ("end-to-end ShapleyImportance('neighbor', nn_k=K).fit().score() and compute_shapley_add on random conjunctive provenance hypergraphs (1-5 units quick / "
         "1-6 thorough, 1-5 rows, rows needing 1-3 units, shared units, units owning several rows or none, isolated units, more units than rows), K 1-3, 2-3 classes, "
-        "1-2 validation points, pairwise distinct distances, accuracy and random additive utilities; compared with the Lean model Ds.Neighbor.score -> Ds.Oracle.scores "
+        "1-2 validation points, pairwise distinct distances, accuracy and random additive utilities; every third case is a HUB hypergraph (gen.rand_hub_hypergraph: one "
+        "unit co-occurring with 2-3 other units AND owning rows that need it alone - rows x0, x0&x1, x0&x2, ... - mostly placed so that the hub is the first variable "
+        "of the compiled diagram: a factor of a stacked component whose root edges carry tallies); compared with the Lean model Ds.Neighbor.score -> Ds.Oracle.scores "
         "and with the Shapley value by definition (Fractions) of the K-NN game (majority label among the K nearest present rows, lowest class on ties, null below K "
         "rows); K=1 one-unit-per-row cases are additionally forced through the ADD path and must equal the kernel path. Non-trivial = >= 2 units, some row needs >= 2 "
         "units or K >= 2, and the Shapley vector is not constant; distinct = distinct (hypergraph, labels, order, K, utility).")
@@ -29,7 +31,17 @@ def run(ctx):
         K = rng.randint(1, min(3, max(1, n_rows - 1)))
         if maxw == 1 and K == 1:
             K = 2
-        rows = gen.rand_hypergraph(rng, n_units, n_rows, maxw)
+        hub = it % 3 == 2        # quick: iterations 2, 5, 8 of each of the 4 workers, all in the <= 4 units / <= 4 rows budget
+        if hub:
+            # hub hypergraph: a unit that co-occurs with several others and also owns single-unit rows (x0, x0&x1, x0&x2, ...) - the first variable of the
+            # compiled diagram is then a factor of a stacked component whose root edges carry tallies, and every "with / without this unit" query restricts it
+            n_units = rng.randint(3, top)
+            n_rows = rng.randint(3, 4 if (q and it % 5 != 4) else 5)
+            maxw = 2
+            K = rng.randint(1, min(3, n_rows - 1))
+            rows = gen.rand_hub_hypergraph(rng, n_units, n_rows)
+        else:
+            rows = gen.rand_hypergraph(rng, n_units, n_rows, maxw)
         c = rng.randint(2, 3)
         m = 1 if (q and rng.random() < 0.6) else rng.randint(1, 2)
         pool = sorted(rng.sample(range(-5, 30), c))
@@ -73,7 +85,7 @@ def run(ctx):
         ans = ctx.model({"op": "neighbor", "prov": {"nUnits": n_units, "exprs": exprs}, "simple": False, "yTrain": y_train, "yTest": y_test,
                          "dist": [[str(Fraction(x)) for x in row] for row in dist.tolist()], "K": K, **ureq})
         nontriv = n_units >= 2 and (maxw >= 2 or K >= 2) and len(set(want)) > 1
-        ctx.case(case, nontrivial=nontriv, sample=case, units=n_units, K=K, maxw=maxw, util=ukind)
+        ctx.case(case, nontrivial=nontriv, sample=case, units=n_units, K=K, maxw=maxw, util=ukind, hub=hub)
         ctx.maxi(units=n_units, rows=n_rows, K=K)
         if isinstance(res, str):
             tag = "F3b-single-unit-addpath" if (n_units == 1 and res.startswith("IndexError")) else None
